@@ -82,9 +82,4 @@ pub assume_specification<T>[<Box<T> as From<T>>::from](t: T) -> (r: Box<T>) ensu
 // string byte lengths and byte-range slicing (std; a range that is out of bounds or not on a char boundary PANICS)
 pub uninterp spec fn str_byte_len(s: Seq<char>) -> nat;
 pub uninterp spec fn is_char_boundary(s: Seq<char>, i: int) -> bool;
-pub uninterp spec fn str_index_ok<I>(s: Seq<char>, i: I) -> bool;
 pub assume_specification[String::len](s: &String) -> (r: usize) ensures r == str_byte_len(s@);
-pub assume_specification<I: std::slice::SliceIndex<str>>[<String as std::ops::Index<I>>::index](s: &String, i: I) -> (r: &<I as std::slice::SliceIndex<str>>::Output)
-    requires str_index_ok::<I>(s@, i);
-pub assume_specification<I: std::slice::SliceIndex<str>>[<str as std::ops::Index<I>>::index](s: &str, i: I) -> (r: &<I as std::slice::SliceIndex<str>>::Output)
-    requires str_index_ok::<I>(s@, i);
